@@ -203,6 +203,7 @@ fn sched_probes(r: &mut RunReport, s: &RunStats) {
     probe(r, "clock-read-under-baton", s.clock_reads);
     probe(r, "host-zone-read-under-baton", s.host_reads);
     probe(r, "file-open-under-baton", s.opens);
+    probe(r, "statement-point-yield", s.stmt_point_yields);
 }
 
 pub fn run_c20(plan: &Plan, keep_trace: bool) -> RunReport {
